@@ -107,7 +107,9 @@ pub fn gen_transparent(a: &Args, out: &mut Out) {
         plans.push((0x8002, vec![], vec![], false, Some((rng.random_range(25..90), rng.random_range(1..8u8)))));
     }
     for (psr, plan, kb, ie, timer) in plans {
-        let flags = known(0, false, chance(&mut rng, 30));
+        let mut flags = known(0, false, chance(&mut rng, 30));
+        // (privilege checks off must not change how interrupts enter and leave: stack switch both ways)
+        flags.ignore_privilege = chance(&mut rng, 25);
         // run A: the same machine without any interrupt source firing
         transparent_run(out, run, flags, psr, &[], &[], false, None); run += 1;
         // A and B must have identical headers; devices are added after the header in both
@@ -136,7 +138,9 @@ pub fn gen_traps(a: &Args, out: &mut Out) {
         let pc = 0x3000 + rng.random_range(0..0x40u16);
         // the string argument
         let straddr = 0x4000 + rng.random_range(0..0x100u16);
-        let len = pick(&mut rng, &[0usize, 1, 2, 3, 4, 5, 7, 12]);
+        // every length class in turn (the empty string included), so that no class depends on luck
+        let lens = [0usize, 1, 2, 3, 4, 5, 7, 12];
+        let len = lens[((k / 6) as usize) % lens.len()];
         let mut pokes: Vec<(u16, Word)> = vec![(pc, word(0xF000 | vect, 0xFFFF)), (pc + 1, word(0xF025, 0xFFFF))];
         if vect == 0x24 {
             // packed: bytes 1..=255, odd and even lengths
@@ -157,6 +161,8 @@ pub fn gen_traps(a: &Args, out: &mut Out) {
                 pokes.push((straddr + i as u16, word(w, 0xFFFF)));
             }
             pokes.push((straddr + len as u16, word(0, 0xFFFF)));
+            // what follows the terminator is not part of the string
+            for j in 1..4u16 { pokes.push((straddr + len as u16 + j, word(0x40 + j, 0xFFFF))); }
         }
         m.set_mems(out, &pokes);
         for r in 1..6u8 { let x = word(rng.random(), 0xFFFF); m.set_reg(out, r, x); }
@@ -268,9 +274,12 @@ pub fn gen_trapmode(a: &Args, out: &mut Out) {
         let fillv: u16 = pick(&mut rng, &[0u16, 0x7777]);
         let dbg = chance(&mut rng, 30);
         let seed: u64 = rng.random();
+        let ignp = chance(&mut rng, 30);
         for real in [false, true] {
             let mut r2 = StdRng::seed_from_u64(seed);
-            let mut m = M::new(run, known(fillv, real, dbg), out); run += 1;
+            let mut fl = known(fillv, real, dbg);
+            fl.ignore_privilege = ignp;
+            let mut m = M::new(run, fl, out); run += 1;
             m.load(out, &assemble_src(TM_PROGS[which]));
             for r in 0..6u8 { let x = word(interesting(&mut r2), 0xFFFF); m.set_reg(out, r, x); }
             m.set_reg(out, 6, word(0xFD00, 0xFFFF));
